@@ -122,7 +122,11 @@ func buildFixPkg(rel string, insts []Inst, pg PropGen, tier string) *FixPkg {
 	}
 	pkgName := filepath.Base(rel)
 	var types strings.Builder
-	fmt.Fprintf(&types, "package %s\n\nimport \"%s/vxlib/vx\"\n\nvar _ = vx.Cover\n\n", pkgName, modPath)
+	if g.needMath {
+		fmt.Fprintf(&types, "package %s\n\nimport (\n\t\"math\"\n\n\t\"%s/vxlib/vx\"\n)\n\nvar _ = vx.Cover\n\n", pkgName, modPath)
+	} else {
+		fmt.Fprintf(&types, "package %s\n\nimport \"%s/vxlib/vx\"\n\nvar _ = vx.Cover\n\n", pkgName, modPath)
+	}
 	types.WriteString(g.Decls())
 	types.WriteString(g.Funcs())
 	fp.Files["types.go"] = types.String()
